@@ -12,7 +12,7 @@ def run(ctx):
     cfgs = [sqlprop.cfg("mem_prod"), sqlprop.cfg("mem_noopt", opt="none"),
             sqlprop.cfg("pq_prod", **optprop.PQ), sqlprop.cfg("pq_noopt", opt="none", **optprop.PQ)] + optprop.rule_cfgs()[1:-2]
     obs = optprop.fired_observer(ctx)
-    sqlprop.run_sql_property(ctx, corpus=["optshapes", "optshapes2", "cjoins", "subq", "subq2", "cte2"], seeded=[], cfgs=cfgs, quick_n=35, thorough_n=700, cross=obs,
+    sqlprop.run_sql_property(ctx, corpus=["optshapes", "optshapes2", "cjoins", "subq", "subq2", "cte2", "samecols"], seeded=[], cfgs=cfgs, quick_n=35, thorough_n=700, cross=obs,
         rule="Corpus statements (incl. the shapes each statistics-driven / decorrelation rule targets: unique and NON-unique keys whose "
              "value range exceeds the row count, linear SUM factors over fan-out joins, dual non-negative int keys with negatives/NULLs, "
              "HAVING totals, semi joins above inner joins, correlated EXISTS / NOT IN / scalar aggregates, OR of conjunctions, outer-join "
